@@ -116,17 +116,17 @@ int main() {
                     auto num = [&]() { uint64_t v = 0; while (i < ops.size() && isdigit(ops[i])) v = v * 10 + (ops[i++] - '0'); return v; };
                     while (i < ops.size()) {
                         const char c = ops[i++];
-                        if (c == 'b') o << "b" << static_cast<unsigned>(t.uint8("u8")) << " ";
-                        else if (c == 'w') o << "w" << t.uint16("u16") << " ";
-                        else if (c == 't') o << "t" << t.uint24("u24") << " ";
-                        else if (c == 'd') o << "d" << t.uint32("u32") << " ";
-                        else if (c == 'a') { auto n = num(); o << "a" << hx(t.area(n, "area")) << " "; }
-                        else if (c == 's') { auto n = num(); t.skip(n, "skip"); o << "s "; }
-                        else if (c == 'p') o << "p" << hx(t.pstring8("p8")) << " ";
-                        else if (c == 'q') o << "q" << hx(t.pstring16("p16")) << " ";
-                        else if (c == 'r') o << "r" << hx(t.pstring24("p24")) << " ";
-                        else if (c == '4') o << "4" << addrHex(t.inet4("in4")) << " ";
-                        else if (c == '6') o << "6" << addrHex(t.inet6("in6")) << " ";
+                        if (c == 'b') { const auto v = t.uint8("u8"); o << "b" << static_cast<unsigned>(v) << " "; }
+                        else if (c == 'w') { const auto v = t.uint16("u16"); o << "w" << v << " "; }
+                        else if (c == 't') { const auto v = t.uint24("u24"); o << "t" << v << " "; }
+                        else if (c == 'd') { const auto v = t.uint32("u32"); o << "d" << v << " "; }
+                        else if (c == 'a') { const auto n = num(); const auto v = t.area(n, "area"); o << "a" << hx(v) << " "; }
+                        else if (c == 's') { const auto n = num(); t.skip(n, "skip"); o << "s "; }
+                        else if (c == 'p') { const auto v = t.pstring8("p8"); o << "p" << hx(v) << " "; }
+                        else if (c == 'q') { const auto v = t.pstring16("p16"); o << "q" << hx(v) << " "; }
+                        else if (c == 'r') { const auto v = t.pstring24("p24"); o << "r" << hx(v) << " "; }
+                        else if (c == '4') { const auto v = t.inet4("in4"); o << "4" << addrHex(v) << " "; }
+                        else if (c == '6') { const auto v = t.inet6("in6"); o << "6" << addrHex(v) << " "; }
                         else if (c == 'e') o << "e" << (t.atEnd() ? 1 : 0) << " ";
                         else if (c == ',') continue;
                         else o << "?";
